@@ -42,6 +42,7 @@ type storeModel struct {
 	keyFn    *ssa.Function // distance derivation (xor helper)
 	capField string
 	sizeFld  string
+	inlineTest bool // the radius test is written out in Put (no helper)
 	radFld   string
 	idFld    string
 	mutexes  []string
@@ -185,10 +186,67 @@ func newStoreModel(c *Ctx) (*storeModel, string) {
 			}
 		}
 	}
+	if m.inRadius == nil && m.loadsRadius(m.put) {
+		// the admission test is written out in Put itself
+		m.inRadius = m.put
+		m.inlineTest = true
+	}
 	if m.ctor == nil || m.prune == nil || m.inRadius == nil || m.keyFn == nil {
 		return nil, fmt.Sprintf("anchor-unresolved: ctor=%v prune=%v inRadius=%v key=%v", m.ctor != nil, m.prune != nil, m.inRadius != nil, m.keyFn != nil)
 	}
 	return m, ""
+}
+
+// radiusCmpCall: c is radius.Gt(x) / x.Lt(radius) (strict) with radius loaded from the store's
+// radius field; returns whether it is such a comparison.
+func (m *storeModel) radiusCmpCall(c *ssa.Call) bool {
+	fromRadius := func(v ssa.Value) bool {
+		return core.Derives(v, func(x ssa.Value) bool {
+			c2, ok := x.(*ssa.Call)
+			if !ok {
+				return false
+			}
+			if core.CalleeID(c2) == atomicValLoad && len(c2.Call.Args) > 0 && m.isField(c2.Call.Args[0], m.radFld) {
+				return true
+			}
+			// the store's own accessor of the radius
+			if f := core.StaticCalleeFn(c2); f != nil && core.InModule(f) && f != m.put && len(f.Params) == 1 && m.loadsRadius(f) && f.Signature.Results().Len() == 1 {
+				return true
+			}
+			return false
+		}, core.DeriveOpts{})
+	}
+	if len(c.Call.Args) != 2 {
+		return false
+	}
+	switch core.CalleeID(c) {
+	case u256Pfx + "Gt":
+		return fromRadius(c.Call.Args[0]) && !fromRadius(c.Call.Args[1])
+	case u256Pfx + "Lt":
+		return fromRadius(c.Call.Args[1]) && !fromRadius(c.Call.Args[0])
+	}
+	return false
+}
+
+// radiusGate: the edge on which Put's admission test came out `passed`.
+func (m *storeModel) radiusGate(passed bool) func(fs []core.Fact) bool {
+	return core.AnyFact(func(f core.Fact) bool {
+		if f.Op != token.ILLEGAL || f.Truth != passed {
+			return false
+		}
+		if !m.inlineTest {
+			var cc *ssa.Call
+			switch x := f.V.(type) {
+			case *ssa.Extract:
+				cc, _ = x.Tuple.(*ssa.Call)
+			case *ssa.Call:
+				cc = x
+			}
+			return cc != nil && core.StaticCalleeFn(cc) == m.inRadius
+		}
+		cc, ok := f.V.(*ssa.Call)
+		return ok && m.radiusCmpCall(cc)
+	})
 }
 
 func (m *storeModel) loadsRadius(f *ssa.Function) bool {
